@@ -100,6 +100,16 @@ CHECKS = {
             "label swap with an error that vanishes with the time step (three-rung ladder).",
             "nesting table written from docstrings (vf/props/c15_table.py); non-negativity judged on grids >= 28 points (coarser "
             "grids give small negative entries with strong migration on the unchanged tree)", "DESIGN.md §2 C15"),
+    "C16": ("differential monitor at Spectrum.from_demes / Demes.SFS / Demes.output / DemesUtil.slice,swipe against a dual emitter (one abstract demography as demes graph and as dadi program), metamorphic unit/scale/order invariances, and export->re-import round trips of random programs",
+            "Five abstract templates (2-5 demes: splits, branches, admixture-created and merged demes, constant/exponential/linear "
+            "epochs, windowed symmetric/asymmetric migrations, pulses) agree with their hand-written programs to 1e-9; years vs "
+            "generations, rescaled reference size and permuted or subset sampled demes on random and stored YAML graphs; ancient samples "
+            "vs frozen axes (also the fifth axis); random neutral programs of 1-5 populations and structured pulse programs for every "
+            "destination exported with Nref/generation_time and re-imported; slice/swipe vs truncated programs; batches spread over six "
+            "interpreter hash seeds. Two recorded findings (see known_findings.json).",
+            "demes resolver; emitted programs follow the importer's axis order so both sides sweep identically; a pulse at the instant a "
+            "deme starts is not expressible in demes and is not generated; non-constant epochs are exported to numpy.allclose accuracy (2e-5)",
+            "DESIGN.md §2 C16"),
     "C17": ("differential monitor at Cache1D/Cache2D integrate*, mixture* and PDFs against a re-implementation of the documented quadrature (O-dfe); schedule/fault workloads on the real constructors with bitwise comparison and exactly-once event logs",
             "Caches are built by the real constructors from synthetic demo_sel_func's: integrate / integrate_point_pos (cached, uncached, "
             "repeated with other theta) / 2-D point masses with the documented rho weights / mixtures / Vourlaki_mixture against "
